@@ -14,6 +14,7 @@ env and HTML (up to newlines after tags) unchanged; option routes indistinguisha
 """
 from __future__ import annotations
 
+import itertools
 import re
 
 from .common import Ctx, Driver, Finding, enc
@@ -62,6 +63,20 @@ def erase(ts):
             t["children"] = erase(t["children"])
         out.append(t)
     return out
+
+
+NEAR_ATOMS = ["abc", "def", "---", ":-:", "--:", ":--", "- -", "2. item", "7) x", "-", "*", "1.", "# h", "> q", "    ind", "", "===", "- li", "1. one", "<div>", "```"]
+NEAR_WRAPS = [("", ""), ("> ", "> "), ("- ", "  "), ("1. ", "   "), ("> ", "")]
+
+
+def near_table_docs(quick: bool):
+    """pipe-free documents around delimiter-row-shaped lines: bounded-exhaustive over short line sequences, bare and in containers"""
+    import itertools
+
+    for L in ((1, 2, 3) if quick else (1, 2, 3, 4)):
+        for combo in itertools.product(NEAR_ATOMS if L < 4 else NEAR_ATOMS[:14], repeat=L):
+            for first, cont in (NEAR_WRAPS if L < 3 or not quick else NEAR_WRAPS[:3]):
+                yield "\n".join((first if j == 0 else cont) + x for j, x in enumerate(combo)) + "\n"
 
 
 def run(ctx: Ctx) -> None:
@@ -132,6 +147,23 @@ def run(ctx: Ctx) -> None:
             continue
         if len(ctx.samples) < 2 and "[" in D and ":" in D:
             ctx.sample({"input": D[:80]})
+    # (b') near-table documents without '|': lines shaped like a delimiter row (`---`, `:-:` …) below text, followed by lines whose
+    # reading depends on state the table rule could leave behind (list markers that may not interrupt a paragraph, setext underlines,
+    # indented continuations), bare and inside containers — bounded-exhaustive over short line sequences (seeded change C10l: the rule
+    # declines late and leaves `parentType` changed)
+    near = 0
+    for D in near_table_docs(quick):
+        near += 1
+        try:
+            if td(cm, D) != td(cmt, D):
+                ctx.fail("extension-not-conservative", "enabling table changes the parse of a document without '|'", {"input": D, "ext": "table", "preset": "commonmark"})
+            if td(js, D) != td(jsnt, D):
+                ctx.fail("extension-not-conservative", "table on/off differs on a document without '|'", {"input": D, "ext": "table", "preset": "js-default"})
+        except Exception:
+            continue
+        if near % 16 == 0:
+            ctx.count(("near-table", D), nontrivial=True)
+    ctx.cov["near_table_family"] = {"documents": near, "line_atoms": len(NEAR_ATOMS), "max_lines": 3 if quick else 4}
     # switches applied while a parse is in flight (lazy `names` iterable that renders while being consumed):
     # afterwards the reported configuration is the one in force
     probe = "*a* ~~s~~ `c` [l](u)\n\n|a|b|\n|-|-|\n\n> q\n\n- i\n\n# h\n"
@@ -228,7 +260,7 @@ def search(ctx: Ctx):
 
     c = Ctx(ctx.pid, "quick", ctx.seed + 23)
     cm, cmt, cms = MarkdownIt(), MarkdownIt().enable("table"), MarkdownIt().enable("strikethrough")
-    for D in gens.doc_stream(c.rng, 6000, 6):
+    for D in itertools.chain(near_table_docs(True), gens.doc_stream(c.rng, 6000, 6)):
         try:
             if "|" not in D and td(cm, D) != td(cmt, D):
                 return Finding("extension-not-conservative", "table changes a document without '|'", {"input": D, "ext": "table", "preset": "commonmark"})
